@@ -273,6 +273,8 @@ func runC03(c *Ctx) {
 				for _, in := range anyCallsWhere(cl, func(cc *ssa.CallCommon) bool { return cc.IsInvoke() && cc.Method.Name() == "Close" }) {
 					c.check(heldAt(in, cl.Params[0], "conn.Mutex") == "Lock", "R2", "conn.Close under mutex", pos(in), "close serialised with frame writes", "the writer can be closed in the middle of a frame")
 				}
+			} else {
+				c.missing("R2", "(*conn).Close")
 			}
 		}
 	}
@@ -1266,7 +1268,6 @@ func enclosingDeferOnce(fn *ssa.Function, cl ssa.Instruction) bool {
 	return n == 1 && okd
 }
 
-
 // checkBroadcastErr (C04.R2, shared with C20.Z5): the sweep that fails every outstanding request when the receiver
 // gives up — on connection loss and likewise on a reply it cannot decode.
 func checkBroadcastErr(c *Ctx, rule string, bcast *ssa.Function) {
@@ -1385,7 +1386,6 @@ func checkBroadcastErr(c *Ctx, rule string, bcast *ssa.Function) {
 		}
 	}
 }
-
 
 // checkUnknownIDEndsSession (C03.R4, C20.Z7): the not-ok branch of recv's table lookup ends recv with an error — the
 // request that reply belonged to can never be answered, so carrying on would leave its caller waiting for ever.
